@@ -10,7 +10,7 @@ for f in sorted(ff, key=lambda f: (f["id"], f["property"])):
     rows.append("| %s | %s | %s | %s | %s | %s |" % (f["id"], f["property"], f["status"], f.get("commit", ""), f["what"].replace("|", "\\|"), ", ".join(os.path.basename(w) for w in f.get("witness_files", [])) or "(race report; not replayable)"))
 findings = "\n".join(rows)
 
-rows = ["| seed | property | what was changed | needs | detected by (quick tier) |", "|---|---|---|---|---|"]
+rows = ["| seed | property | what was changed | needs | detected by (quick tier unless noted) |", "|---|---|---|---|---|"]
 n = det = 0
 for m in sorted(glob.glob(os.path.join(ROOT, "seeded", "*", "meta.json"))):
     meta = json.load(open(m))
@@ -19,12 +19,15 @@ for m in sorted(glob.glob(os.path.join(ROOT, "seeded", "*", "meta.json"))):
     for k, v in sorted(meta.get("detected", {}).items()):
         if v.get("exit") == 1:
             sig = [l for l in v.get("summary", []) if "signature" in l]
-            dets.append(k.split("/")[0] + ": " + (sig[0].split("signature:")[1].strip() if sig else "violation"))
+            dets.append(k.split("/")[0] + ": " + (sig[0].split("signature:")[1].strip() if sig else "violation") + (" (thorough tier only)" if k.endswith("/thorough") else ""))
     n += 1
     det += 1 if dets else 0
+    thorough_only = locals().get("thorough_only", 0) + (1 if dets and all("thorough tier only" in d for d in dets) else 0)
+    if meta.get("obsolete"):
+        dets.append("obsolete: " + meta["obsolete"][:160])
     rows.append("| %s | %s | %s | %s | %s |" % (tag, meta["property"], meta.get("summary", "").replace("|", "\\|")[:300], meta.get("needs", "").replace("|", "\\|")[:260], "; ".join(dets) or "**missed**"))
 rows.append("")
-rows.append("%d seeded changes confirmed, %d detected by the final quick tier." % (n, det))
+rows.append("%d seeded changes confirmed, %d detected (%d of them by the thorough tier only, the others by the quick tier)." % (n, det, thorough_only))
 seeded = "\n".join(rows)
 
 def put(doc, name, body):
